@@ -13,6 +13,14 @@ let index_cmd (toks : string list) : string option =
   match toks with
   | "box" :: d :: cs -> let d = nat_of_int (int_of_string d) in
       Some (zs (box d (List.map z_of_string cs)))
+  | ["hunbox"; h; i] -> Some (zlist_to_string (h_unbox (z_of_string h) (z_of_string i)))
+  | "hbox" :: h :: cs -> Some (zs (h_box (z_of_string h) (List.map z_of_string cs)))
+  | ["hparent"; _h; i] -> Some (zs (h_parent (z_of_string i)))
+  | ["hccode"; _h; i] -> Some (zs (h_child_code (z_of_string i)))
+  | ["hilist"; h; per; l; i] ->
+      Some (zlist_to_string (List.map fst (h_ilist_cell (z_of_string h) (bool_of_tok per) (z_of_string l) (z_of_string i))))
+  | ["hnlist"; h; per; l; up; i] ->
+      Some (zlist_to_string (List.map fst (h_nlist_cell (z_of_string h) (bool_of_tok per) (z_of_string l) (bool_of_tok up) (z_of_string i))))
   | "boxsafe" :: d :: cs -> let d = nat_of_int (int_of_string d) in
       Some (if box_safe d (List.map z_of_string cs) then "safe" else "unsafe")
   | ["unbox"; d; i] -> let d = nat_of_int (int_of_string d) in
